@@ -209,9 +209,28 @@ func tsRun(st *gosym.State, prog *tsmini.Program, s *corpus.Spec, toks, vals []*
 			}
 		}
 	}()
-	nOut := len(st.Output)
 	in = tsmini.New(st, prog)
 	in.MaxLoop = 2000
+	out = tsRunOn(st, in, s, toks, vals, useIdx)
+	return
+}
+
+// tsRunOn runs Parser("") on an existing interpreter state (for histories).
+func tsRunOn(st *gosym.State, in *tsmini.Interp, s *corpus.Spec, toks, vals []*gosym.Term, useIdx bool) (out tsOutcome) {
+	defer func() {
+		if r := recover(); r != nil {
+			switch x := r.(type) {
+			case *tsmini.Throw:
+				out.Kind, out.Msg = 3, x.Kind+": "+x.Msg
+				out.Log, out.Requests = tsLog(in), tsInt(in.Global("verifRequests"))
+			case tsmini.Unsupported:
+				st.End("unsupported", "tsmini: "+x.What)
+			default:
+				panic(r)
+			}
+		}
+	}()
+	nOut := len(st.Output)
 	arr := func(ts []*gosym.Term) *tsmini.Array {
 		a := &tsmini.Array{}
 		for _, t := range ts {
